@@ -13,6 +13,7 @@ import (
 )
 
 type Solver struct {
+	nWatchdog                               int // incremental queries killed by the watchdog
 	cross                                   int // cross-check every cross-th decided query with a second solver (0 = off)
 	nCross, nCrossAgree, nCrossInconclusive int
 	crossDisagree                           []string
@@ -117,6 +118,20 @@ func (s *Solver) restart() {
 // readUntilSync sends a marker and returns every reply line that precedes it, so that one command's
 // replies can never be mistaken for the next one's (z3 answers "push canceled" after a timeout).
 func (s *Solver) readUntilSync() []string {
+	// watchdog: z3 4.8.12 does not always honour :timeout (observed: one query running 20 min with 6.5 GB).
+	// If no complete reply arrives within the incremental budget plus a generous grace period the process is
+	// killed; the read below then ends with EOF, the solver is marked poisoned and the caller falls back to
+	// a fresh process and the flat (hard -T limited) re-solve.
+	budget := s.timeout
+	if s.name != "cvc5" && budget > 4000 {
+		budget = 4000
+	}
+	proc := s.cmd.Process
+	wd := time.AfterFunc(time.Duration(budget)*time.Millisecond+45*time.Second, func() {
+		s.nWatchdog++
+		proc.Kill()
+	})
+	defer wd.Stop()
 	s.syncN++
 	marker := fmt.Sprintf("zz-sync-%d", s.syncN)
 	s.send("(echo \"" + marker + "\")")
@@ -449,7 +464,7 @@ func (s *Solver) flatSolve(extraRef string, names []string) string {
 	s.nFlat++
 	start := time.Now()
 	tsec := s.timeout/1000 + 1
-	out, _ := exec.Command("/usr/bin/z3", fmt.Sprintf("-T:%d", tsec), f.Name()).CombinedOutput()
+	out, _ := exec.Command("/usr/bin/z3", fmt.Sprintf("-T:%d", tsec), "-memory:8000", f.Name()).CombinedOutput()
 	s.solveTime += time.Since(start)
 	txt := strings.TrimSpace(string(out))
 	first := txt
